@@ -154,6 +154,10 @@ pub struct RunCfg {
     /// a runtime, where the budget is unconstrained.
     #[serde(default)]
     pub task_budget: Option<u16>,
+    /// The user futures may send the interrupt signal themselves, from inside the poll (at their
+    /// first poll or in the poll in which they complete), instead of the explorer between polls.
+    #[serde(default)]
+    pub mid_poll_int: bool,
 }
 
 /// The three StreamOpts builder steps in one of the 6 possible call orders.
@@ -211,6 +215,7 @@ impl RunCfg {
             avoid: vec![],
             pre: None,
             task_budget: None,
+            mid_poll_int: false,
         }
     }
 
@@ -249,6 +254,9 @@ impl RunCfg {
         }
         if let Some(b) = self.task_budget {
             s += &format!(" in-tokio-task(budget {b} per poll)");
+        }
+        if self.mid_poll_int {
+            s += " signal-sent-by-a-user-future";
         }
         s
     }
@@ -404,7 +412,7 @@ impl<'a, Fut: Future<Output = Out>> Driver<'a, Fut> {
                     self.acts.push(Act::Complete(i));
                 }
             }
-            if !self.int_sent && !self.window_dirty {
+            if !self.int_sent && !s.int_sent && !self.window_dirty && !cfg.mid_poll_int {
                 self.acts.push(Act::Interrupt);
             }
             if !self.first && !woken && self.spurious > 0 {
@@ -511,6 +519,7 @@ impl<'a, Fut: Future<Output = Out>> Driver<'a, Fut> {
             }
             Act::Interrupt => {
                 self.int_sent = true;
+                sh.borrow_mut().int_sent = true;
                 sh.borrow_mut().ev.push(Ev::Interrupt);
                 self.intx.unwrap().try_send(InterruptSignal).expect("interrupt channel has room");
             }
@@ -602,6 +611,10 @@ fn run_inner(g: &mut FnGraph<Node>, cfg: &RunCfg, sh: &Sh) -> DriveRes {
     let state = mk_state(cfg.strat, &mut irx);
     let opts = build_opts(cfg.opts_order, state, cfg.include, cfg.rev);
     let intx = if cfg.strat == Strat::Non { None } else { Some(&itx) };
+    if cfg.mid_poll_int && cfg.interrupt && intx.is_some() {
+        let itx = itx.clone();
+        sh.borrow_mut().mid_int = Some(Box::new(move || itx.try_send(InterruptSignal).expect("interrupt channel has room")));
+    }
     let limit = cfg.limit;
     let sh2 = sh.clone();
     let with = cfg.api.with;
